@@ -338,9 +338,24 @@ class Session(object):
         """Yield (kind, name, violation, magnitude) for every generated constraint / LMI."""
         from pv import canon
         out = []
+        # cancellation INSIDE a sample point (x - g / L = 0 as the difference of two vectors of norm 78, Appendix B28): the
+        # library merges the coefficients of such a point into its constraints, where a contribution of size c |x|^2 can be left
+        # as 1e-16 c |x|^2 with no large term in sight; the size of what was cancelled is added to the size of every constraint
+        cancelled = 0.0
+        for smp in self.f.list_of_points:
+            for pt in smp[:2]:
+                if pt.get_is_leaf():
+                    continue
+                try:
+                    a_ = sum(abs(float(c_)) * float(np.linalg.norm(self.pvals[id(k_)])) for k_, c_ in pt.decomposition_dict.items())
+                    cancelled = max(cancelled, a_ ** 2 - float(np.dot(self.pvalue(pt), self.pvalue(pt))))
+                except Exception:
+                    pass
         for c in self.f.list_of_class_constraints:
             G, F, c0 = canon.expr_coeffs(c.expression)
             val, mag = c0, abs(c0)
+            if cancelled > 0 and G:
+                mag += max(1.0, max(abs(w_) for w_ in G.values())) * cancelled
             for (p, q), w in G.items():
                 t = w * float(np.dot(self.pvals[id(p)], self.pvals[id(q)]))
                 val += t
